@@ -362,7 +362,7 @@ import threading
 _retry_lock = threading.Lock()
 
 
-def run_case(cfg, d, linkers=("wild", "ld", "lld"), variant=0, threads=None, env=None):
+def run_case(cfg, d, linkers=("wild", "ld", "lld"), variant=0, threads=None, env=None, patch_wild=False):
     """Emit + link + observe. Returns {linker: {"error":..., "loaded":..., "bind":..., "msg":...}}, line."""
     line = emit(cfg, d, variant)
     res = {}
@@ -376,7 +376,7 @@ def run_case(cfg, d, linkers=("wild", "ld", "lld"), variant=0, threads=None, env
         ec = error_class(r)
         o = {"error": ec, "rc": r.rc, "msg": (r.err + r.out)[-600:] if ec != "none" else ""}
         if ec == "none":
-            if lk == "wild" and _PATCH_OBSERVATION:
+            if lk == "wild" and (_PATCH_OBSERVATION or patch_wild):
                 _patch_identity(Path(d) / out)
             try:
                 o.update(observe(Path(d) / out, cfg))
@@ -458,7 +458,11 @@ def replay_one(rec, d, idx, seed, aspects, reference, skip_load_divergent=None):
     variant = rng.choice([0, 0, 1, 2, 3, 4])
     threads = rng.choice([1, 2, 4, 8])
     env = {"WILD_VERIF_YIELD_SEED": str(rng.getrandbits(31))} if rng.random() < 0.5 else {}
-    res, line = run_case(cfg, d, variant=variant, threads=threads, env=env)
+    # detection demonstration without rebuilding wild: VERIF_SYMRES_DEMO=patch-output:<n> corrupts the identity word
+    # in wild's output of every n-th replayed case before it is observed -> the check must report a VIOLATION
+    demo = os.environ.get("VERIF_SYMRES_DEMO", "")
+    patch = demo.startswith("patch-output:") and idx % int(demo.split(":")[1]) == 0
+    res, line = run_case(cfg, d, variant=variant, threads=threads, env=env, patch_wild=patch)
     R = norm_outcome(rec["expect"], cfg)
     M = norm_outcome(rec["model"], cfg)
     W, G, L = (norm_outcome(res[k], cfg) for k in ("wild", "ld", "lld"))
